@@ -35,7 +35,7 @@ func multiHostSequence(r *core.Run, wl string, idx int, rng *rand.Rand, mismatch
 	sp := stdSP(0)
 	sp.AuthnRequestsSigned = ""
 	mustRegister(e.W, sp, "appA")
-	u := randUser(rng, fmt.Sprintf("UMK%dx", idx), false)
+	u := randUser(rng, fmt.Sprintf("U_MK%dx", idx), false)
 	e.W.AddUser(u)
 	hosts := []string{"one.idp.example", "two.idp.example:8443", "three.example"}
 	steps := 6 + rng.Intn(5)
